@@ -118,6 +118,9 @@ Proof.
     pose proof (step_mono _ _ _ Hp Hs). specialize (IH s' m ltac:(lia) H). lia.
 Qed.
 
+Lemma run_ops_mono' ops s m : run_ops E len ops s = Some m -> s_pos s <= usize_max -> s_pos s <= s_pos m.
+Proof. intros H1 H2. eapply run_ops_mono; eauto. Qed.
+
 (* ------------------------------------------------------------------ length expressions *)
 Lemma eval_esz_nonneg acc loc z s : wf_esz args acc z = true -> eval_esz E loc z = Some s -> 0 <= s.
 Proof.
@@ -173,4 +176,567 @@ Proof.
       intros _. cbn in H. inversion H. reflexivity.
 Qed.
 
+
+(* ------------------------------------------------------------------ the invariant of the symbolic walk *)
+Definition range_end (rv : list (string * rval)) (p : string) : option Z :=
+  match lookup p rv with Some (RRange _ e) => Some e | _ => None end.
+Definition pv_end (rv : list (string * rval)) (pv : rstart) : option Z :=
+  match pv with
+  | SZero => Some 0
+  | SAfter p => range_end rv p
+  | SChain o l => chain_end rv o l
+  | SVar _ => None
+  end.
+Definition pv_names (pv : rstart) : list string :=
+  match pv with SZero => [] | SAfter p => [p] | SChain o l => l :: o | SVar f => [f] end.
+
+(* what is known about field n (info i) in state s, with the ranges rv evaluated so far *)
+Definition FieldOK (s : st) (rv : list (string * rval)) (acc : list (string * finfo)) (n : string) (i : finfo) : Prop :=
+  0 < fi_div i /\
+  match lookup n rv with
+  | None => False
+  | Some RAbsent => fi_opt i = true
+  | Some (RRange a b) =>
+      0 <= a /\ a <= b /\ b <= s_pos s /\ (b - a) mod fi_div i = 0
+      /\ (forall w, fi_fixed i = Some w -> b - a = w)
+      /\ (forall w, fi_read i = true -> fi_opt i = false -> fi_fixed i = Some w ->
+                    lookup n (s_locals s) = Some (e_oracle E a w))
+      /\ (forall ty an, fi_csz i = Some (ty, an) ->
+            (forall a, In a an -> seen args acc a = true) /\
+            exists sz, e_csize E ty (map (locval (s_locals s)) an) = Some sz /\ (fi_exact i = true -> b - a = usz sz))
+  end.
+
+Record Inv (s : st) (rv : list (string * rval)) (pv : rstart) (acc : list (string * finfo)) : Prop := {
+  inv_pos0 : 0 <= s_pos s;
+  inv_posM : s_pos s <= usize_max;
+  inv_pv : pv_end rv pv = Some (s_pos s);
+  inv_pvn : forall x, In x (pv_names pv) -> seen args acc x = true;
+  inv_f : forall n i, lookup n acc = Some i -> FieldOK s rv acc n i;
+  inv_dom : forall n, lookup n acc = None -> lookup n rv = None }.
+
+Definition frame_eq (s m : st) (x : string) : Prop :=
+  lookup x (s_lens m) = lookup x (s_lens s) /\ lookup x (s_starts m) = lookup x (s_starts s)
+  /\ lookup x (s_locals m) = lookup x (s_locals s).
+Definition ext_only (n : string) (s s1 : st) : Prop := forall x, x <> n -> frame_eq s s1 x.
+
+Lemma locals_map_ext acc n s s1 an :
+  (forall a, In a an -> seen args acc a = true) -> seen args acc n = false ->
+  (forall x, x <> n -> lookup x (s_locals s1) = lookup x (s_locals s)) ->
+  map (locval (s_locals s1)) an = map (locval (s_locals s)) an.
+Proof.
+  intros Ha Hn Hx. apply map_ext_in. intros a Hin. unfold locval. rewrite Hx; [reflexivity|].
+  eapply seen_ne; eauto.
+Qed.
+
+Lemma fieldok_ext s rv acc n0 i0 s1 n v i :
+  FieldOK s rv acc n0 i0 -> seen args acc n0 = true -> seen args acc n = false ->
+  s_pos s <= s_pos s1 -> (forall x, x <> n -> lookup x (s_locals s1) = lookup x (s_locals s)) ->
+  FieldOK s1 ((n, v) :: rv) ((n, i) :: acc) n0 i0.
+Proof.
+  intros [Hd H] Hs0 Hn Hp Hx. assert (Hne : n0 <> n) by (eapply seen_ne; eauto).
+  split; [exact Hd|]. rewrite lookup_cons_ne by exact Hne.
+  destruct (lookup n0 rv) as [[|a b]|]; [exact H| |exact H].
+  destruct H as (H1 & H2 & H3 & H4 & H5 & H6 & H7).
+  repeat split; try assumption; try lia.
+  - intros w Hr Ho Hf. rewrite Hx by exact Hne. eauto.
+  - intros a0 Ha0. apply seen_cons_mono. destruct (H7 _ _ H) as [Hs _]. auto.
+  - destruct (H7 _ _ H) as [Hs [sz [Hc He]]]. exists sz. split; [|exact He].
+    rewrite (locals_map_ext acc n s s1 an); auto.
+Qed.
+
+Lemma chain_end_cons_fresh rv n v o l : ~ In n (l :: o) -> chain_end ((n, v) :: rv) o l = chain_end rv o l.
+Proof.
+  induction o as [|x o IH]; intros Hn; cbn [chain_end].
+  - rewrite lookup_cons_ne; [reflexivity|]. intros ->. apply Hn. left. reflexivity.
+  - rewrite lookup_cons_ne by (intros ->; apply Hn; right; left; reflexivity).
+    rewrite IH; [reflexivity|]. intros [H|H]; apply Hn; [left; exact H | right; right; exact H].
+Qed.
+
+Lemma inv_extend s rv pv acc s1 n v i pv1 :
+  Inv s rv pv acc -> seen args acc n = false ->
+  s_pos s <= s_pos s1 -> s_pos s1 <= usize_max ->
+  (forall x, x <> n -> lookup x (s_locals s1) = lookup x (s_locals s)) ->
+  FieldOK s1 ((n, v) :: rv) ((n, i) :: acc) n i ->
+  pv_end ((n, v) :: rv) pv1 = Some (s_pos s1) ->
+  (forall x, In x (pv_names pv1) -> seen args ((n, i) :: acc) x = true) ->
+  Inv s1 ((n, v) :: rv) pv1 ((n, i) :: acc).
+Proof.
+  intros HI Hn Hp HM Hx Hnew Hpv Hpvn. destruct HI as [I0 IM Ipv Ipvn If Idom].
+  constructor; try assumption; try lia.
+  - intros n0 i0 Hl. destruct (String.eqb_spec n0 n) as [->|Hne].
+    + rewrite lookup_cons_eq in Hl. inversion Hl; subst. exact Hnew.
+    + rewrite lookup_cons_ne in Hl by exact Hne. eapply fieldok_ext; eauto. eapply seen_lookup; eauto.
+  - intros n0 Hl. destruct (String.eqb_spec n0 n) as [->|Hne].
+    + rewrite lookup_cons_eq in Hl. discriminate.
+    + rewrite lookup_cons_ne in Hl by exact Hne. rewrite lookup_cons_ne by exact Hne. auto.
+Qed.
+
+Lemma eval_start_pv m rv pv p : pv_end rv pv = Some p -> eval_start m rv pv = Some (Some p).
+Proof.
+  destruct pv; cbn; intros H; try discriminate.
+  - congruence.
+  - unfold range_end in H. destruct (lookup p0 rv) as [[|a b]|]; try discriminate. congruence.
+  - rewrite H. reflexivity.
+Qed.
+
+Lemma close_case s rv pv acc n s1 v i pv1 r rules' tbl m :
+  rr_name r = n -> seen args acc n = false ->
+  Inv s rv pv acc ->
+  ext_only n s s1 -> s_pos s <= s_pos s1 -> s_pos s1 <= usize_max ->
+  FieldOK s1 ((n, v) :: rv) ((n, i) :: acc) n i ->
+  pv_end ((n, v) :: rv) pv1 = Some (s_pos s1) ->
+  (forall x, In x (pv_names pv1) -> seen args ((n, i) :: acc) x = true) ->
+  (frame_eq s1 m n -> eval_rule m rv r = Some v) ->
+  (Inv s1 ((n, v) :: rv) pv1 ((n, i) :: acc) ->
+     (forall x, seen args ((n, i) :: acc) x = true -> frame_eq s1 m x) /\
+     exists rv' pv', eval_rules m ((n, v) :: rv) rules' = Some rv' /\ Inv m rv' pv' tbl) ->
+  (forall x, seen args acc x = true -> frame_eq s m x) /\
+  exists rv' pv', eval_rules m rv (r :: rules') = Some rv' /\ Inv m rv' pv' tbl.
+Proof.
+  intros Hname Hn HI Hext Hp HM Hnew Hpv Hpvn Hrule HIH.
+  assert (HI1 : Inv s1 ((n, v) :: rv) pv1 ((n, i) :: acc)).
+  { eapply inv_extend; eauto. intros x Hx. destruct (Hext x Hx) as (_ & _ & H). exact H. }
+  destruct (HIH HI1) as [Hfr [rv' [pv' [Hev HIm]]]].
+  split.
+  - intros x Hx. assert (Hne : x <> n) by (eapply seen_ne; eauto).
+    destruct (Hfr x (seen_cons_mono _ _ _ _ _ Hx)) as (A & B & C).
+    destruct (Hext x Hne) as (A' & B' & C'). unfold frame_eq. rewrite A, B, C. auto.
+  - exists rv', pv'. split; [|exact HIm]. cbn [eval_rules].
+    rewrite (Hrule (Hfr n (seen_cons_self _ _ _ _))). rewrite Hname. exact Hev.
+Qed.
+
+Lemma fixed_fieldok s rv acc n a w opt rd v0 :
+  0 < w -> 0 <= a -> a + w <= s_pos s ->
+  (rd = true -> opt = false -> lookup n (s_locals s) = Some (e_oracle E a w)) ->
+  v0 = RRange a (a + w) ->
+  FieldOK s ((n, v0) :: rv) acc n (info_fixed opt w rd).
+Proof.
+  intros Hw Ha Hb Hr ->. split; [exact Hw|]. rewrite lookup_cons_eq. cbn.
+  replace (a + w - a) with w by lia.
+  repeat split; try lia.
+  - apply Z_mod_same_full.
+  - intros w0 H. inversion H. reflexivity.
+  - intros w0 H1 H2 H3. inversion H3; subst. auto.
+  - discriminate.
+  - discriminate.
+Qed.
+
+Lemma absent_fieldok s rv acc n i : 0 < fi_div i -> fi_opt i = true -> FieldOK s ((n, RAbsent) :: rv) acc n i.
+Proof. intros Hd Ho. split; [exact Hd|]. rewrite lookup_cons_eq. exact Ho. Qed.
+
+Lemma len_fieldok s rv acc n a l opt e pos0 loc :
+  wf_lenexp args acc e = true -> eval_len E len pos0 loc e = Some l ->
+  s_locals s = loc ->
+  0 <= a -> a + l <= s_pos s ->
+  FieldOK s ((n, RRange a (a + l)) :: rv) ((n, info_of_len opt e) :: acc) n (info_of_len opt e).
+Proof.
+  intros Hw He Hloc Ha Hb.
+  destruct (eval_len_div acc opt _ _ _ _ Hw He) as [Hd Hm].
+  pose proof (eval_len_nonneg _ _ _ _ _ Hw He) as Hl.
+  destruct (info_of_len_basic opt e) as (Ho & Hf & Hr).
+  split; [exact Hd|]. rewrite lookup_cons_eq. replace (a + l - a) with l by lia.
+  repeat split; try lia; try assumption.
+  - intros w H. congruence.
+  - intros w H. congruence.
+  - intros a0 Ha0. destruct (eval_len_csz acc opt _ _ _ _ _ _ Hw He H) as [Hs _]. apply seen_cons_mono. auto.
+  - destruct (eval_len_csz acc opt _ _ _ _ _ _ Hw He H) as [_ [sz [Hc Hx]]]. exists sz. rewrite Hloc. auto.
+Qed.
+
+Lemma push_opt_end rv pv n v pv' p acc i :
+  push_opt pv n = Some pv' -> pv_end rv pv = Some p ->
+  (forall x, In x (pv_names pv) -> seen args acc x = true) -> seen args acc n = false ->
+  pv_end ((n, v) :: rv) pv' = Some (match v with RRange _ e => e | RAbsent => p end) /\
+  (forall x, In x (pv_names pv') -> seen args ((n, i) :: acc) x = true).
+Proof.
+  intros Hpush Hend Hnames Hn. destruct pv; cbn in Hpush; inversion Hpush; subst; cbn [pv_end pv_names].
+  - split.
+    + cbn [chain_end]. rewrite lookup_cons_eq. destruct v; [|reflexivity].
+      rewrite lookup_cons_ne; [exact Hend|]. intros ->. rewrite (Hnames n) in Hn; [discriminate | left; reflexivity].
+    + intros x [<-|[<-|[]]]; [apply seen_cons_mono; apply Hnames; left; reflexivity | apply seen_cons_self].
+  - split.
+    + cbn [chain_end]. rewrite lookup_cons_eq. destruct v; [|reflexivity].
+      rewrite chain_end_cons_fresh; [exact Hend|]. intros Hin. rewrite (Hnames n) in Hn; [discriminate | exact Hin].
+    + intros x [<-|[<-|Hin]]; [apply seen_cons_mono; apply Hnames; left; reflexivity | apply seen_cons_self |].
+      apply seen_cons_mono. apply Hnames. right. exact Hin.
+Qed.
+
+
+Ltac split_andb H :=
+  repeat match type of H with
+  | (_ && _) = true => let H2 := fresh "Hc" in apply andb_true_iff in H; destruct H as [H H2]
+  end.
+Ltac norm_hyps :=
+  repeat match goal with
+  | H : String.eqb _ _ = true |- _ => apply String.eqb_eq in H
+  | H : cond_eqb _ _ = true |- _ => apply cond_eqb_eq in H
+  | H : rstart_eqb _ _ = true |- _ => apply rstart_eqb_eq in H
+  | H : rlen_fixed _ _ = true |- _ => apply rlen_fixed_eq in H
+  | H : rlen_is _ 0 _ = true |- _ => apply rlen_is_0 in H
+  | H : rlen_is _ 1 _ = true |- _ => apply rlen_is_1 in H
+  end;
+  repeat match goal with
+  | H : ?f = rr_name _ |- _ => is_var f; subst f
+  | H : Cond ?a ?b = ?c0 |- _ => is_var c0; subst c0
+  | H : ?c = ?c0 |- _ => is_var c; is_var c0; match type of c with cond => subst c0 end
+  end;
+  try match goal with H : rr_start _ = _ |- _ => rename H into Hst end;
+  try match goal with H : rr_len _ = _ |- _ => rename H into Hln end;
+  try match goal with H : okw ?w = true |- _ => pose proof (okw_pos _ H) as Hw end;
+  try match goal with H : wf_lenexp _ _ _ = true |- _ => rename H into Hwfl end.
+Ltac stcbn := cbn [set_pos bind_local bind_len bind_start s_pos s_locals s_lens s_starts].
+Ltac stcbn_in H := cbn [set_pos bind_local bind_len bind_start s_pos s_locals s_lens s_starts] in H.
+
+(* ------------------------------------------------------------------ soundness of the symbolic walk *)
+Lemma match_sound : forall rules ops pv acc tbl,
+  match_fields args rules ops pv acc = Some tbl ->
+  forall s rv m, run_ops E len ops s = Some m -> s_pos m < usize_max -> Inv s rv pv acc ->
+  (forall x, seen args acc x = true -> frame_eq s m x) /\
+  exists rv' pv', eval_rules m rv rules = Some rv' /\ Inv m rv' pv' tbl.
+Proof.
+  induction rules as [|r rules' IH]; intros ops pv acc tbl Hm s rv m Hrun Hfin HI.
+  - cbn in Hm. destruct ops; [|discriminate]. inversion Hm; subst. cbn in Hrun. inversion Hrun; subst.
+    split. { intros x _. repeat split. } exists rv, pv. split; [reflexivity | exact HI].
+  - cbn [match_fields] in Hm.
+    destruct (seen args acc (rr_name r)) eqn:Hseen; [discriminate|].
+    pose proof (inv_pos0 _ _ _ _ HI) as Hp0. pose proof (inv_posM _ _ _ _ HI) as HpM.
+    destruct ops as [|o1 ops1]; [discriminate|].
+    destruct o1.
+    + (* cursor.advance::<T>() *)
+      destruct (rstart_eqb (rr_start r) pv && rlen_fixed (rr_len r) w && okw w) eqn:Hc; [|discriminate].
+      split_andb Hc. norm_hyps.
+      cbn [run_ops step] in Hrun.
+      pose proof (run_ops_mono' _ _ _ Hrun) as Hmono. stcbn_in Hmono. specialize (Hmono (sat_add_le_max _ _)).
+      assert (Hex : sat_add (s_pos s) w = s_pos s + w) by (apply sat_add_exact; lia).
+      eapply close_case with (s1 := set_pos s (sat_add (s_pos s) w)) (v := RRange (s_pos s) (s_pos s + w))
+                             (i := info_fixed false w false) (pv1 := SAfter (rr_name r)).
+      * reflexivity.
+      * exact Hseen.
+      * exact HI.
+      * intros x _. unfold frame_eq. stcbn. auto.
+      * stcbn. lia.
+      * stcbn. apply sat_add_le_max.
+      * apply fixed_fieldok with (a := s_pos s); stcbn; try lia; try reflexivity; try (intros; discriminate).
+      * cbn [pv_end]. unfold range_end. rewrite lookup_cons_eq. stcbn. rewrite Hex. reflexivity.
+      * intros x [<-|[]]. apply seen_cons_self.
+      * intros _. unfold eval_rule. rewrite Hst, Hln. rewrite (eval_start_pv m rv pv _ (inv_pv _ _ _ _ HI)). reflexivity.
+      * intros HI1. eapply IH; eauto.
+    + (* let f: T = cursor.read()? *)
+      destruct (String.eqb f (rr_name r) && rstart_eqb (rr_start r) pv && rlen_fixed (rr_len r) w && okw w) eqn:Hc; [|discriminate].
+      split_andb Hc. norm_hyps.
+      cbn [run_ops step] in Hrun. unfold do_read in Hrun.
+      destruct (s_pos s + w <=? len) eqn:Hle; [|discriminate].
+      pose proof (run_ops_mono' _ _ _ Hrun) as Hmono. stcbn_in Hmono. specialize (Hmono (sat_add_le_max _ _)).
+      assert (Hex : sat_add (s_pos s) w = s_pos s + w) by (apply sat_add_exact; lia).
+      eapply close_case with (s1 := set_pos (bind_local s (rr_name r) (e_oracle E (s_pos s) w)) (sat_add (s_pos s) w))
+                             (v := RRange (s_pos s) (s_pos s + w))
+                             (i := info_fixed false w true) (pv1 := SAfter (rr_name r)).
+      * reflexivity.
+      * exact Hseen.
+      * exact HI.
+      * intros x Hx. unfold frame_eq. stcbn. rewrite lookup_cons_ne by exact Hx. auto.
+      * stcbn. lia.
+      * stcbn. apply sat_add_le_max.
+      * apply fixed_fieldok with (a := s_pos s); stcbn; try lia; try reflexivity.
+        intros _ _. apply lookup_cons_eq.
+      * cbn [pv_end]. unfold range_end. rewrite lookup_cons_eq. stcbn. rewrite Hex. reflexivity.
+      * intros x [<-|[]]. apply seen_cons_self.
+      * intros _. unfold eval_rule. rewrite Hst, Hln. rewrite (eval_start_pv m rv pv _ (inv_pv _ _ _ _ HI)). reflexivity.
+      * intros HI1. eapply IH; eauto.
+    + (* let f_byte_len = e; cursor.advance_by(f_byte_len) *)
+      destruct ops1 as [|o2 ops2]; [discriminate|]. destruct o2; try discriminate.
+      destruct (String.eqb f (rr_name r) && String.eqb f0 (rr_name r) && rstart_eqb (rr_start r) pv
+                && rlen_is (rr_len r) 0 (rr_name r) && wf_lenexp args acc e) eqn:Hc; [|discriminate].
+      split_andb Hc. norm_hyps.
+      cbn [run_ops step] in Hrun.
+      destruct (eval_len E len (s_pos s) (s_locals s) e) as [l|] eqn:Hel; [|discriminate].
+      stcbn_in Hrun. rewrite lookup_cons_eq in Hrun. stcbn_in Hrun.
+      pose proof (eval_len_nonneg _ _ _ _ _ Hwfl Hel) as Hl.
+      pose proof (run_ops_mono' _ _ _ Hrun) as Hmono. stcbn_in Hmono. specialize (Hmono (sat_add_le_max _ _)).
+      assert (Hex : sat_add (s_pos s) l = s_pos s + l) by (apply sat_add_exact; lia).
+      eapply close_case with (s1 := set_pos (bind_len s (rr_name r) (LV l)) (sat_add (s_pos s) l))
+                             (v := RRange (s_pos s) (s_pos s + l))
+                             (i := info_of_len false e) (pv1 := SAfter (rr_name r)).
+      * reflexivity.
+      * exact Hseen.
+      * exact HI.
+      * intros x Hx. unfold frame_eq. stcbn. rewrite lookup_cons_ne by exact Hx. auto.
+      * stcbn. lia.
+      * stcbn. apply sat_add_le_max.
+      * eapply len_fieldok with (pos0 := s_pos s) (loc := s_locals s); eauto; stcbn; lia.
+      * cbn [pv_end]. unfold range_end. rewrite lookup_cons_eq. stcbn. rewrite Hex. reflexivity.
+      * intros x [<-|[]]. apply seen_cons_self.
+      * intros (A & _ & _). unfold eval_rule. rewrite Hst, Hln.
+        rewrite (eval_start_pv m rv pv _ (inv_pv _ _ _ _ HI)). cbn [eval_rlen]. rewrite A. stcbn.
+        rewrite lookup_cons_eq. reflexivity.
+      * intros HI1. eapply IH; eauto.
+    + discriminate.
+    + (* gated fields: let f_byte_start = c.then(|| cursor.position()).transpose()?; ... *)
+      destruct ops1 as [|o2 ops2]; [discriminate|]. destruct o2; try discriminate.
+      * (* c.then(|| cursor.advance::<T>()) *)
+        destruct (push_opt pv (rr_name r)) as [pv'|] eqn:Hpush; [|discriminate].
+        destruct (String.eqb f (rr_name r) && cond_eqb c c0 && rstart_eqb (rr_start r) (SVar (rr_name r))
+                  && rlen_fixed (rr_len r) w && okw w) eqn:Hc; [|discriminate].
+        split_andb Hc. norm_hyps.
+        cbn [run_ops step] in Hrun.
+        destruct (eval_cond E (s_locals s) c) eqn:Hb.
+        -- destruct (s_pos s <=? len) eqn:Hle; [|discriminate]. stcbn_in Hrun. rewrite Hb in Hrun.
+           stcbn_in Hrun.
+           pose proof (run_ops_mono' _ _ _ Hrun) as Hmono. stcbn_in Hmono. specialize (Hmono (sat_add_le_max _ _)).
+           assert (Hex : sat_add (s_pos s) w = s_pos s + w) by (apply sat_add_exact; lia).
+           destruct (push_opt_end rv pv (rr_name r) (RRange (s_pos s) (s_pos s + w)) pv' (s_pos s) acc
+                       (info_fixed true w false) Hpush (inv_pv _ _ _ _ HI) (inv_pvn _ _ _ _ HI) Hseen) as [Hpe Hpn].
+           eapply close_case with (s1 := set_pos (bind_start s (rr_name r) (Some (s_pos s))) (sat_add (s_pos s) w))
+                                  (v := RRange (s_pos s) (s_pos s + w))
+                                  (i := info_fixed true w false) (pv1 := pv').
+           ++ reflexivity.
+           ++ exact Hseen.
+           ++ exact HI.
+           ++ intros x Hx. unfold frame_eq. stcbn. rewrite lookup_cons_ne by exact Hx. auto.
+           ++ stcbn. lia.
+           ++ stcbn. apply sat_add_le_max.
+           ++ apply fixed_fieldok with (a := s_pos s); stcbn; try lia; try reflexivity; try (intros; discriminate).
+           ++ rewrite Hpe. stcbn. rewrite Hex. reflexivity.
+           ++ exact Hpn.
+           ++ intros (_ & B & _). unfold eval_rule. rewrite Hst, Hln. cbn [eval_start eval_rlen]. rewrite B. stcbn.
+              rewrite lookup_cons_eq. reflexivity.
+           ++ intros HI1. eapply IH; eauto.
+        -- stcbn_in Hrun. rewrite Hb in Hrun.
+           destruct (push_opt_end rv pv (rr_name r) RAbsent pv' (s_pos s) acc
+                       (info_fixed true w false) Hpush (inv_pv _ _ _ _ HI) (inv_pvn _ _ _ _ HI) Hseen) as [Hpe Hpn].
+           eapply close_case with (s1 := bind_start s (rr_name r) None) (v := RAbsent)
+                                  (i := info_fixed true w false) (pv1 := pv').
+           ++ reflexivity.
+           ++ exact Hseen.
+           ++ exact HI.
+           ++ intros x Hx. unfold frame_eq. stcbn. rewrite lookup_cons_ne by exact Hx. auto.
+           ++ stcbn. lia.
+           ++ stcbn. lia.
+           ++ apply absent_fieldok; [exact Hw | reflexivity].
+           ++ rewrite Hpe. reflexivity.
+           ++ exact Hpn.
+           ++ intros (_ & B & _). unfold eval_rule. rewrite Hst, Hln. cbn [eval_start eval_rlen]. rewrite B. stcbn.
+              rewrite lookup_cons_eq. reflexivity.
+           ++ intros HI1. eapply IH; eauto.
+      * (* let f = c.then(|| cursor.read::<T>()).transpose()?.unwrap_or_default() *)
+        destruct (push_opt pv (rr_name r)) as [pv'|] eqn:Hpush; [|discriminate].
+        destruct (String.eqb f (rr_name r) && String.eqb f0 (rr_name r) && cond_eqb c c0
+                  && rstart_eqb (rr_start r) (SVar (rr_name r)) && rlen_fixed (rr_len r) w && okw w) eqn:Hc; [|discriminate].
+        split_andb Hc. norm_hyps.
+        cbn [run_ops step] in Hrun.
+        destruct (eval_cond E (s_locals s) c) eqn:Hb.
+        -- destruct (s_pos s <=? len) eqn:Hle; [|discriminate]. stcbn_in Hrun. rewrite Hb in Hrun.
+           unfold do_read in Hrun. stcbn_in Hrun.
+           destruct (s_pos s + w <=? len) eqn:Hle2; [|discriminate].
+           pose proof (run_ops_mono' _ _ _ Hrun) as Hmono. stcbn_in Hmono. specialize (Hmono (sat_add_le_max _ _)).
+           assert (Hex : sat_add (s_pos s) w = s_pos s + w) by (apply sat_add_exact; lia).
+           destruct (push_opt_end rv pv (rr_name r) (RRange (s_pos s) (s_pos s + w)) pv' (s_pos s) acc
+                       (info_fixed true w false) Hpush (inv_pv _ _ _ _ HI) (inv_pvn _ _ _ _ HI) Hseen) as [Hpe Hpn].
+           eapply close_case with (s1 := set_pos (bind_local (bind_start s (rr_name r) (Some (s_pos s))) (rr_name r)
+                                                     (e_oracle E (s_pos s) w)) (sat_add (s_pos s) w))
+                                  (v := RRange (s_pos s) (s_pos s + w))
+                                  (i := info_fixed true w false) (pv1 := pv').
+           ++ reflexivity.
+           ++ exact Hseen.
+           ++ exact HI.
+           ++ intros x Hx. unfold frame_eq. stcbn. rewrite !lookup_cons_ne by exact Hx. auto.
+           ++ stcbn. lia.
+           ++ stcbn. apply sat_add_le_max.
+           ++ apply fixed_fieldok with (a := s_pos s); stcbn; try lia; try reflexivity; try (intros; discriminate).
+           ++ rewrite Hpe. stcbn. rewrite Hex. reflexivity.
+           ++ exact Hpn.
+           ++ intros (_ & B & _). unfold eval_rule. rewrite Hst, Hln. cbn [eval_start eval_rlen]. rewrite B. stcbn.
+              rewrite lookup_cons_eq. reflexivity.
+           ++ intros HI1. eapply IH; eauto.
+        -- stcbn_in Hrun. rewrite Hb in Hrun.
+           destruct (push_opt_end rv pv (rr_name r) RAbsent pv' (s_pos s) acc
+                       (info_fixed true w false) Hpush (inv_pv _ _ _ _ HI) (inv_pvn _ _ _ _ HI) Hseen) as [Hpe Hpn].
+           eapply close_case with (s1 := bind_local (bind_start s (rr_name r) None) (rr_name r) 0) (v := RAbsent)
+                                  (i := info_fixed true w false) (pv1 := pv').
+           ++ reflexivity.
+           ++ exact Hseen.
+           ++ exact HI.
+           ++ intros x Hx. unfold frame_eq. stcbn. rewrite !lookup_cons_ne by exact Hx. auto.
+           ++ stcbn. lia.
+           ++ stcbn. lia.
+           ++ apply absent_fieldok; [exact Hw | reflexivity].
+           ++ rewrite Hpe. reflexivity.
+           ++ exact Hpn.
+           ++ intros (_ & B & _). unfold eval_rule. rewrite Hst, Hln. cbn [eval_start eval_rlen]. rewrite B. stcbn.
+              rewrite lookup_cons_eq. reflexivity.
+           ++ intros HI1. eapply IH; eauto.
+      * (* let f_byte_len = c.then_some(e); if let Some(value) = f_byte_len { cursor.advance_by(value) } *)
+        destruct ops2 as [|o3 ops3]; [discriminate|]. destruct o3; try discriminate.
+        destruct (push_opt pv (rr_name r)) as [pv'|] eqn:Hpush; [|discriminate].
+        destruct (String.eqb f (rr_name r) && String.eqb f0 (rr_name r) && String.eqb f1 (rr_name r) && cond_eqb c c0
+                  && rstart_eqb (rr_start r) (SVar (rr_name r)) && rlen_is (rr_len r) 1 (rr_name r)
+                  && wf_lenexp args acc e) eqn:Hc; [|discriminate].
+        split_andb Hc. norm_hyps.
+        cbn [run_ops step] in Hrun.
+        destruct (eval_cond E (s_locals s) c) eqn:Hb.
+        -- destruct (s_pos s <=? len) eqn:Hle; [|discriminate]. stcbn_in Hrun.
+           destruct (eval_len E len (s_pos s) (s_locals s) e) as [l|] eqn:Hel; [|discriminate].
+           rewrite Hb in Hrun. stcbn_in Hrun. rewrite lookup_cons_eq in Hrun. stcbn_in Hrun.
+           pose proof (eval_len_nonneg _ _ _ _ _ Hwfl Hel) as Hl.
+           pose proof (run_ops_mono' _ _ _ Hrun) as Hmono. stcbn_in Hmono. specialize (Hmono (sat_add_le_max _ _)).
+           assert (Hex : sat_add (s_pos s) l = s_pos s + l) by (apply sat_add_exact; lia).
+           destruct (push_opt_end rv pv (rr_name r) (RRange (s_pos s) (s_pos s + l)) pv' (s_pos s) acc
+                       (info_of_len true e) Hpush (inv_pv _ _ _ _ HI) (inv_pvn _ _ _ _ HI) Hseen) as [Hpe Hpn].
+           eapply close_case with (s1 := set_pos (bind_len (bind_start s (rr_name r) (Some (s_pos s))) (rr_name r)
+                                                     (LO (Some l))) (sat_add (s_pos s) l))
+                                  (v := RRange (s_pos s) (s_pos s + l))
+                                  (i := info_of_len true e) (pv1 := pv').
+           ++ reflexivity.
+           ++ exact Hseen.
+           ++ exact HI.
+           ++ intros x Hx. unfold frame_eq. stcbn. rewrite !lookup_cons_ne by exact Hx. auto.
+           ++ stcbn. lia.
+           ++ stcbn. apply sat_add_le_max.
+           ++ eapply len_fieldok with (pos0 := s_pos s) (loc := s_locals s); eauto; stcbn; lia.
+           ++ rewrite Hpe. stcbn. rewrite Hex. reflexivity.
+           ++ exact Hpn.
+           ++ intros (A & B & _). unfold eval_rule. rewrite Hst, Hln. cbn [eval_start eval_rlen]. rewrite A, B. stcbn.
+              rewrite !lookup_cons_eq. reflexivity.
+           ++ intros HI1. eapply IH; eauto.
+        -- stcbn_in Hrun.
+           destruct (eval_len E len (s_pos s) (s_locals s) e) as [l|] eqn:Hel; [|discriminate].
+           rewrite Hb in Hrun. stcbn_in Hrun. rewrite lookup_cons_eq in Hrun.
+           destruct (eval_len_div acc true _ _ _ _ Hwfl Hel) as [Hd _].
+           destruct (info_of_len_basic true e) as (Ho & _ & _).
+           destruct (push_opt_end rv pv (rr_name r) RAbsent pv' (s_pos s) acc
+                       (info_of_len true e) Hpush (inv_pv _ _ _ _ HI) (inv_pvn _ _ _ _ HI) Hseen) as [Hpe Hpn].
+           eapply close_case with (s1 := bind_len (bind_start s (rr_name r) None) (rr_name r) (LO None)) (v := RAbsent)
+                                  (i := info_of_len true e) (pv1 := pv').
+           ++ reflexivity.
+           ++ exact Hseen.
+           ++ exact HI.
+           ++ intros x Hx. unfold frame_eq. stcbn. rewrite !lookup_cons_ne by exact Hx. auto.
+           ++ stcbn. lia.
+           ++ stcbn. lia.
+           ++ apply absent_fieldok; assumption.
+           ++ rewrite Hpe. reflexivity.
+           ++ exact Hpn.
+           ++ intros (A & B & _). unfold eval_rule. rewrite Hst, Hln. cbn [eval_start eval_rlen]. rewrite A, B. stcbn.
+              rewrite !lookup_cons_eq. reflexivity.
+           ++ intros HI1. eapply IH; eauto.
+    + discriminate.
+    + discriminate.
+    + discriminate.
+    + discriminate.
+Qed.
+
 End Sound.
+
+(* ------------------------------------------------------------------ top level *)
+Lemma init_inv E L argv : Inv E (r_args L) (init_st L argv) [] SZero [].
+Proof.
+  constructor.
+  - cbn. lia.
+  - cbn. unfold usize_max. lia.
+  - reflexivity.
+  - intros x H. destruct H.
+  - intros n i H. discriminate H.
+  - intros n H. reflexivity.
+Qed.
+
+Lemma wf_run L : wf_safe L = true ->
+  forall argv E len m, 0 <= len <= isize_max -> run_read L argv E len = Some m ->
+  exists tbl rv pv,
+    forallb (wf_getter (r_args L) tbl) (r_getters L) = true /\
+    ranges_of L m = Some rv /\ Inv E (r_args L) m rv pv tbl /\ s_pos m <= len.
+Proof.
+  intros Hwf argv E len m Hlen Hrun. unfold wf_safe in Hwf. apply andb_true_iff in Hwf. destruct Hwf as [_ Hwf].
+  destruct (match_fields (r_args L) (r_rules L) (r_ops L) SZero []) as [tbl|] eqn:Hm; [|discriminate].
+  unfold run_read in Hrun.
+  destruct (run_ops E len (r_ops L) (init_st L argv)) as [s|] eqn:Hops; [|discriminate].
+  destruct (s_pos s <=? len) eqn:Hle; [|discriminate]. inversion Hrun; subst s. apply Z.leb_le in Hle.
+  assert (Hfin : s_pos m < usize_max) by (unfold isize_max, usize_max in *; lia).
+  destruct (match_sound E len (r_args L) _ _ _ _ _ Hm _ [] _ Hops Hfin (init_inv E L argv)) as [_ [rv [pv [Hev HI]]]].
+  exists tbl, rv, pv. split; [exact Hwf|]. split; [exact Hev|]. split; [exact HI | exact Hle].
+Qed.
+
+Lemma gargs_ok_vals E args m rv tbl :
+  (forall n i, lookup n tbl = Some i -> FieldOK E args m rv tbl n i) ->
+  forall ga an, gargs_ok args tbl ga an = true ->
+  map (eval_garg E m rv) ga = map (locval (s_locals m)) an.
+Proof.
+  intros HF. induction ga as [|a ga IH]; intros [|n an] H; cbn in H; try discriminate; [reflexivity|].
+  apply andb_true_iff in H. destruct H as [Ha Hr]. cbn [map]. f_equal; [|apply IH; exact Hr].
+  destruct a as [f w|x]; cbn in Ha.
+  - apply andb_true_iff in Ha. destruct Ha as [Ha Hi]. apply andb_true_iff in Ha. destruct Ha as [Hfn _].
+    apply String.eqb_eq in Hfn. subst f.
+    destruct (lookup n tbl) as [i|] eqn:Hl; [|discriminate].
+    apply andb_true_iff in Hi. destruct Hi as [Hi Hfx]. apply andb_true_iff in Hi. destruct Hi as [Hrd Hop].
+    destruct (fi_fixed i) as [w'|] eqn:Hfi; [|discriminate]. apply Z.eqb_eq in Hfx. subst w'.
+    apply negb_true_iff in Hop.
+    destruct (HF _ _ Hl) as [_ HK]. cbn [eval_garg].
+    destruct (lookup n rv) as [[|a b]|]; [congruence| |contradiction].
+    destruct HK as (_ & _ & _ & _ & _ & H6 & _). unfold locval. rewrite (H6 w Hrd Hop Hfi). reflexivity.
+  - apply andb_true_iff in Ha. destruct Ha as [Hx _]. apply String.eqb_eq in Hx. subst x. reflexivity.
+Qed.
+
+Definition getter_ok (o : gout) : Prop := o = GValue \/ o = GAbsent.
+
+Lemma getters_safe_proof : forall L, wf_safe L = true ->
+  forall argv E len m, 0 <= len <= isize_max -> run_read L argv E len = Some m ->
+  forall g, In g (r_getters L) -> getter_ok (eval_getter L E m len g).
+Proof.
+  intros L Hwf argv E len m Hlen Hrun g Hg.
+  destruct (wf_run L Hwf argv E len m Hlen Hrun) as (tbl & rv & pv & Hgs & Hrv & HI & Hpos).
+  rewrite forallb_forall in Hgs. specialize (Hgs g Hg). unfold wf_getter in Hgs.
+  destruct (lookup (g_field g) tbl) as [i|] eqn:Hl; [|discriminate].
+  apply andb_true_iff in Hgs. destruct Hgs as [Hopt Hacc]. apply Bool.eqb_prop in Hopt.
+  pose proof (inv_f _ _ _ _ _ _ HI _ _ Hl) as [Hd HF].
+  unfold eval_getter. rewrite Hrv.
+  destruct (lookup (g_field g) rv) as [[|a b]|]; [|clear Hl|contradiction].
+  - rewrite Hopt, HF. right. reflexivity.
+  - destruct HF as (H1 & H2 & H3 & H4 & H5 & H6 & H7). left.
+    destruct (g_acc g) as [w|z|direct ty ga|]; cbn [eval_access].
+    + destruct (fi_fixed i) as [w'|] eqn:Hfi; [|discriminate]. apply Z.eqb_eq in Hacc. subst w'.
+      specialize (H5 w eq_refl). replace (a + w <=? len) with true; [reflexivity|]. symmetry. apply Z.leb_le. lia.
+    + apply andb_true_iff in Hacc. destruct Hacc as [Hz Hm]. apply Z.ltb_lt in Hz. apply Z.eqb_eq in Hm.
+      pose proof (mod_trans (b - a) (fi_div i) z Hd Hz Hm H4) as Hmod.
+      replace (a <=? b) with true by (symmetry; apply Z.leb_le; lia).
+      replace (b <=? len) with true by (symmetry; apply Z.leb_le; lia).
+      replace (z =? 0) with false by (symmetry; apply Z.eqb_neq; lia).
+      rewrite Hmod. reflexivity.
+    + destruct (fi_csz i) as [[ty' an]|] eqn:Hcs; [|discriminate].
+      apply andb_true_iff in Hacc. destruct Hacc as [Hacc Hdir]. apply andb_true_iff in Hacc. destruct Hacc as [Hty Hga].
+      apply String.eqb_eq in Hty. subst ty'.
+      replace (a <=? b) with true by (symmetry; apply Z.leb_le; lia).
+      replace (b <=? len) with true by (symmetry; apply Z.leb_le; lia). cbn [andb].
+      rewrite (gargs_ok_vals E (r_args L) m rv tbl (inv_f _ _ _ _ _ _ HI) _ _ Hga).
+      destruct (H7 _ _ eq_refl) as [_ [sz [Hc Hex]]]. rewrite Hc.
+      destruct direct; [|reflexivity]. cbn in Hdir. rewrite <- (Hex Hdir). rewrite Z.leb_refl. reflexivity.
+    + replace (a <=? len) with true; [reflexivity|]. symmetry. apply Z.leb_le. lia.
+Qed.
+
+(* every marker range (the non-saturating `start..start + width` of `*_byte_range`) lies inside the data:
+   no usize overflow is possible in the generated range functions *)
+Lemma ranges_no_overflow_proof : forall L, wf_safe L = true ->
+  forall argv E len m, 0 <= len <= isize_max -> run_read L argv E len = Some m ->
+  exists rv, ranges_of L m = Some rv /\
+    forall n a b, lookup n rv = Some (RRange a b) -> 0 <= a /\ a <= b /\ b <= len /\ b < usize_max.
+Proof.
+  intros L Hwf argv E len m Hlen Hrun.
+  destruct (wf_run L Hwf argv E len m Hlen Hrun) as (tbl & rv & pv & Hgs & Hrv & HI & Hpos).
+  exists rv. split; [exact Hrv|]. intros n a b Hn.
+  destruct (lookup n tbl) as [i|] eqn:Hl.
+  - pose proof (inv_f _ _ _ _ _ _ HI _ _ Hl) as [_ HF]. rewrite Hn in HF.
+    destruct HF as (H1 & H2 & H3 & _). unfold isize_max, usize_max in *. lia.
+  - rewrite (inv_dom _ _ _ _ _ _ HI _ Hl) in Hn. discriminate.
+Qed.
+
+(* lifting the per-table boolean check to a list of layouts *)
+Lemma all_layouts_safe_lift (Ls : list rlayout) : forallb wf_safe Ls = true ->
+  forall L, In L Ls ->
+  forall argv E len m, 0 <= len <= isize_max -> run_read L argv E len = Some m ->
+  (forall g, In g (r_getters L) -> getter_ok (eval_getter L E m len g)) /\
+  exists rv, ranges_of L m = Some rv /\
+    forall n a b, lookup n rv = Some (RRange a b) -> 0 <= a /\ a <= b /\ b <= len /\ b < usize_max.
+Proof.
+  intros H L HL argv E len m Hlen Hrun. rewrite forallb_forall in H. specialize (H L HL).
+  split; [eapply getters_safe_proof; eauto | eapply ranges_no_overflow_proof; eauto].
+Qed.
+
+Lemma getter_ok_not_panic o : getter_ok o -> o <> GPanic.
+Proof. intros [->| ->]; discriminate. Qed.
